@@ -252,3 +252,27 @@ def preprocess_signature(entry):
             norm.append((g, lab))
         out.add((p, tuple(norm)))
     return out
+
+
+def always_converted(F, fn, k, depth=0, seen=None):
+    """callers (transitively) that hand parameter k of fn a map which is not the result of convert_ref"""
+    seen = seen or set()
+    if (fn.path, k) in seen or depth > 4:
+        return []
+    seen.add((fn.path, k))
+    bad = []
+    sites = F.callers().get(fn.path, [])
+    if not sites:
+        return [fn.path + ' (no caller)']
+    for cfn, cbb, ct in sites:
+        a = prov.prov_of(cfn).call_args(cbb)[k - 1]
+        if any(x[0] == 'call' and x[1].get('name') == 'convert_ref' for x in prov.walk(a, limit=400)):
+            continue
+        pp = as_param_path(a)
+        if pp is not None and pp[1] == () and pp[0] <= len(cfn.j.get('inputs', [])) and cfn.j['inputs'][pp[0] - 1].get('to_adt') == BEATMAP:
+            bad += always_converted(F, cfn, pp[0], depth + 1, seen)
+        else:
+            bad.append(cfn.path)
+    return bad
+
+
